@@ -214,6 +214,7 @@ func ruleC10Linecol(p *Program, r *Run) {
 // Joining the same error twice doubles the error list at every nesting level (2^depth on nested erroneous input).
 type errDupClient struct {
 	BaseClient
+	InlinePredicates
 	fn   string
 	join *types.Func
 	n    map[*ast.CallExpr]int
@@ -307,6 +308,7 @@ func ruleC12ErrDup(p *Program, r *Run) {
 // ---- C13/lost-error: an error result is never overwritten while it may still hold an unreported error.
 type lostErrClient struct {
 	BaseClient
+	InlinePredicates
 	fn string
 }
 
@@ -572,6 +574,7 @@ func callOrdinal(e *Engine, call *ast.CallExpr, fn *types.Func) int {
 // first keyword and ends at its last (path facts on the tokens' text where the span is stored).
 type clauseSpanClient struct {
 	BaseClient
+	InlinePredicates
 	fn string
 }
 
